@@ -39,6 +39,128 @@ def lit_args_of(F, fid, callee_suffix):
     return out
 
 
+def _escapes(n):
+    """node contains a continue/break that leaves the current iteration (not inside a nested loop/closure)"""
+    if not H.is_node(n):
+        return False
+    if n[0] in ("continue", "break"):
+        return True
+    if n[0] in ("for", "loop", "closure"):
+        return False
+    return any(_escapes(c) for c in H.children(n))
+
+
+def classify_all_rule(rep, F):
+    """every iteration of the categorizer's UTxO loop registers the UTxO as spendable: structural must-analysis over the HIR"""
+    rep.rule("CLASSIFY-all", "on every path through one iteration of AssetCategorizer::new's loop over the supplied UTxOs (inner loops may run zero times) the UTxO is registered in one of the two work lists the batcher drains (pure-ADA list or UTxO->assets map): no supplied UTxO is left unspent (HIR must-analysis)")
+    fid = find_fn(rep, F, "AssetCategorizer::new")
+    if not fid:
+        return
+    body = F.hir[fid]["body"]
+    # the two work lists = the locals that initialise the fields drained by has_ada()/has_assets()
+    lists = {}
+    for n in H.walk(body):
+        if n[0] == "struct":
+            for f in n[3]:
+                if f[0] in ("free_ada_utxos", "free_utxo_to_assets"):
+                    lists[f[0]] = H.path_str(H.strip(f[1]))
+    if set(lists) != {"free_ada_utxos", "free_utxo_to_assets"} or None in lists.values():
+        rep.lost("AssetCategorizer::new no longer initialises free_ada_utxos / free_utxo_to_assets from locals")
+        return
+    ada, amap = lists["free_ada_utxos"], lists["free_utxo_to_assets"]
+    loops = [n for n in H.walk(body) if n[0] == "for" and (H.path_str(H.strip(n[3])) or "").endswith("utxos.0")]
+    if len(loops) != 1:
+        rep.lost("AssetCategorizer::new: the loop over the supplied UTxOs was not found (%d candidates)" % len(loops))
+        return
+
+    def recv(n):
+        return H.path_str(H.strip(n[4])) if n[0] == "mcall" else None
+
+    def known(cond):
+        """(polarity, True) when cond tests membership of this UTxO in the assets map"""
+        c = H.strip(cond)
+        neg = False
+        while H.is_node(c) and c[0] == "unary" and c[2] == "Not":
+            neg = not neg
+            c = H.strip(c[3])
+        if H.is_node(c) and c[0] == "mcall" and c[2] == "contains_key" and recv(c) == amap:
+            return "neg" if neg else "pos"
+        if H.is_node(c) and c[0] == "letx":
+            v = H.pat_variant(c[2])
+            s = H.strip(c[3])
+            if v and v.endswith("Some") and H.is_node(s) and s[0] == "mcall" and s[2] in ("get", "get_mut") and recv(s) == amap:
+                return "pos"
+        return None
+
+    def must(n):
+        if not H.is_node(n):
+            return False
+        k = n[0]
+        if k in ("for", "loop", "closure"):
+            return False
+        if k == "mcall" and ((n[2] == "push" and recv(n) == ada) or (n[2] in ("insert", "entry") and recv(n) == amap)):
+            return True
+        if k == "block":
+            for st in n[2]:
+                parts = [st[3], st[4]] if st[0] == "let" else [st[2]]
+                for p_ in parts:
+                    if p_ is None:
+                        continue
+                    if must(p_):
+                        return True
+                    if _escapes(p_):
+                        return False
+            return must(n[3]) if n[3] is not None else False
+        if k == "if":
+            if must(n[2]):
+                return True
+            kn = known(n[2])
+            t = must(n[3])
+            e = must(n[4]) if n[4] is not None else False
+            if kn == "pos":
+                return e
+            if kn == "neg":
+                return t
+            return t and e
+        if k == "match":
+            return must(n[2]) or all(must(a[2]) for a in n[3])
+        if k == "binary" and n[2] in ("And", "Or"):
+            return must(n[3])
+        return any(must(c) for c in H.children(n))
+
+    rep.inst("CLASSIFY-all")
+    if not must(loops[0][4]):
+        rep.violation("CLASSIFY-all", "AssetCategorizer::new|unregistered-path", "one iteration of the loop over the supplied UTxOs can finish without the UTxO being pushed to `%s` or inserted into `%s` (e.g. a value whose multiasset is present but holds no asset): such a UTxO is counted in the total but never spent by any returned transaction" % (ada, amap), {})
+
+
+def unique_input_rule(rep, F):
+    rep.rule("UNIQUE-input", "between create_send_all's UTxO parameter and the categorizer, entries are made unique by their TransactionInput (a set/map keyed by TransactionInput whose membership result filters or rejects the entry): a UTxO listed twice is spent once")
+    n_found = 0
+    scanned = 0
+    for key in ("builders::tx_batch_builder::create_send_all", "TxBatchBuilder::new", "AssetCategorizer::new"):
+        fid = find_fn(rep, F, key)
+        if not fid:
+            continue
+        scanned += 1
+        for n in H.walk(F.hir[fid]["body"]):
+            if n[0] != "mcall":
+                continue
+            rty = n[6] or ""
+            keyed = re.search(r"(HashSet|BTreeSet|HashMap|BTreeMap)<(&'?\w* ?)?protocol_types::tx_input::TransactionInput", rty)
+            if keyed and n[2] in ("insert", "contains", "contains_key", "entry", "get") and n[5]:
+                reads_input = any(x[0] == "field" and x[3] == "input" and "TransactionUnspentOutput" in (x[4] or "") for x in H.walk(n[5][0]))
+                if reads_input:
+                    n_found += 1
+            if n[2] in ("dedup_by_key", "dedup_by", "sort_by_key") and n[5] and n[2].startswith("dedup"):
+                if any(x[0] == "field" and x[3] == "input" for x in H.walk(n[5][0])):
+                    n_found += 1
+    if scanned != 3:
+        return
+    rep.inst("UNIQUE-input")
+    if n_found == 0:
+        rep.violation("UNIQUE-input", "create_send_all|duplicate-entry", "nothing between create_send_all and AssetCategorizer::new makes the supplied UTxO entries unique by input: an input listed twice is indexed twice, its value is counted twice and the returned transactions pay out more than the distinct UTxOs hold", {})
+
+
 def check(rep, F, tier, replay=None):
     cddl = common.load_table("conway_cddl.json")
     inv = Inventory(F)
@@ -171,6 +293,8 @@ def check(rep, F, tier, replay=None):
                             passes = True
             if not passes:
                 rep.violation("TARGET", "%s|pass-through" % key, "%s no longer hands its address parameter through unchanged" % key, {})
+    classify_all_rule(rep, F)
+    unique_input_rule(rep, F)
     from ruleutil import arith_unused_rule
     arith_unused_rule(rep, F, ["src/builders/batch_tools/", "src/builders/tx_batch_builder.rs"])
     from ruleutil import batch_total_rule
